@@ -165,6 +165,19 @@ def setup():
     m.trace[_resolve(R, name)] = None
   m.trace[P.POXCore.call_later] = None
   m.trace[P.POXCore.raiseLater] = None
+  # pox.lib.util's PipePinger methods are nested in make_pinger(): their code objects are constants of its code
+  def walk(co):
+    for c in co.co_consts:
+      if hasattr(c, "co_consts"):
+        yield c
+        for x in walk(c):
+          yield x
+  m.pinger_codes = [c for c in walk(U.make_pinger.__code__)
+                    if "PipePinger" in c.co_qualname and c.co_name in ("ping", "pong", "pong_all", "pongAll")]
+  if len(m.pinger_codes) < 3:
+    raise HarnessError("C07: cannot find PipePinger.ping/pong/pong_all code objects in pox.lib.util.make_pinger")
+  for c in m.pinger_codes:
+    m.trace[c] = None
   m.opcode = [_resolve(R, n) for n in OPCODE_FUNCS]
   m.windows = {}
   m.missing = []
@@ -177,6 +190,8 @@ def setup():
       except HarnessError:
         m.missing.append("%s: %s" % (name, p))      # tolerated: the tree under test may have dropped the line
     m.windows[f] = lines
+  for c in m.pinger_codes:     # every line of ping / pong / pong_all is a window (flag or pipe access)
+    m.windows[c] = set(ln for _, _, ln in c.co_lines() if ln is not None and ln != c.co_firstlineno)
   if len(m.missing) > 6:
     raise HarnessError("C07: most window patterns do not match the source any more: %r" % (m.missing,))
 
@@ -220,6 +235,8 @@ class _Obs(object):
     self.q_adv = None         # number of time advances at the quiescence observation
     self.q = None             # scenario snapshot at quiescence
     self.labels = []
+    self.tail = None          # optional: run by the main thread after the foreign threads were joined
+    self.patches = []         # optional: extra context managers for the run
 
   def tick(self):
     self.seq += 1
@@ -254,8 +271,10 @@ def _scn_a(p, ds, obs, m):
   hold = bool(p.get("hold"))  # each thread submits inside `with scheduler.synchronized():`
   warm = bool(p.get("warm"))  # one call-later round trip first, so that the CallLaterTask is waiting in its Select
   log = []
+  ntail = int(p.get("tail", 0))  # submissions by the main thread: the first right after joining the foreign threads (it may
+                                 # race with the scheduler still working on theirs), each further one after quiescence
   counts = [sum(op[1] if isinstance(op, list) else 1 for op in pr) for pr in progs]
-  expected = [(i, j) for i in range(len(progs)) for j in range(counts[i])]
+  expected = [(i, j) for i in range(len(progs)) for j in range(counts[i])] + [(len(progs), j) for j in range(ntail)]
 
   def mk(i, j, t0):
     def f(*a, **kw):
@@ -272,6 +291,16 @@ def _scn_a(p, ds, obs, m):
       ds.wait_quiescent("a: warm-up")
       if not done:
         obs.fail("wakeup-needs-poll", "scenario a: the warm-up function had not run at quiescence", scn="a")
+
+  def tail(s):
+    for j in range(ntail):
+      s.callLater(mk(len(progs), j, ds.vtime()))
+      ds.wait_quiescent("a: after tail submission %d" % j)
+      if not any(e[0] == len(progs) and e[1] == j for e in log):
+        obs.fail("call-not-noticed", "scenario a: follow-up function %d handed over by a further thread after the others had "
+                 "finished had not run when every thread was blocked again" % j, scn="a")
+  if ntail:
+    obs.tail = tail
 
   def submit(i):
     s = obs.s
@@ -335,12 +364,12 @@ def _scn_a(p, ds, obs, m):
       if not e[2]:
         out.fail("call-wrong-thread", "scenario a: function %r did not run on the scheduler thread" % ((e[0], e[1]),), scn="a")
         break
-    for i in range(len(progs)):
+    for i in range(len(progs) + (1 if ntail else 0)):
       js = [e[1] for e in final if e[0] == i]
       if js != sorted(js):
         bad = [k for k in range(1, len(js)) if js[k] < js[k - 1]][:3]
         out.fail("call-order", "scenario a: thread %d submitted 0..%d in order but they ran out of order, e.g. around positions %r: %r"
-                 % (i, counts[i] - 1, bad, [js[max(0, k - 1):k + 1] for k in bad]), scn="a")
+                 % (i, len(js) - 1, bad, [js[max(0, k - 1):k + 1] for k in bad]), scn="a")
     for e in q:
       if e[4] != e[3]:
         out.fail("wakeup-needs-poll", "scenario a: function %r submitted at t=%r ran at t=%r" % ((e[0], e[1]), e[3], e[4]), scn="a")
@@ -349,30 +378,65 @@ def _scn_a(p, ds, obs, m):
 
 
 def _scn_b(p, ds, obs, m):
+  """schedule(T) from foreign threads / from a task, while T is blocked indefinitely (`yield False` or `yield Sleep()`)
+  or is sitting in the ready queue after `yield 0`.  (schedule()'s docstring: "this method will not schedule a task to
+  run multiple times" -- so calling it on a task that is already queued is within the contract.  A task in a *timed*
+  sleep or a Select is not a legal target: the select hub keeps its entry and would resume the task a second time when
+  the timer / fd fires -- recoco has no way to cancel that -- so such targets are not generated.)
+
+  Reference model of T: queued / running / waiting.  A wake-up takes effect when its ScheduleTask executes (observed by
+  wrapping ScheduleTask.run) or, for the in-thread path, when schedule() is called: waiting -> queued, otherwise no-op.
+  Every step of T must start in state queued; at quiescence T must not be queued."""
   R = m.R
-  wakers = p["wakers"]            # schedule() calls per foreign thread
+  wakers = p["wakers"]             # schedule() calls per foreign thread
   inthread = p.get("inthread", 0)  # schedule() calls made by a task on the scheduler thread
+  z = int(p.get("z", 0))           # `yield 0` steps T makes after every resume before it waits again
+  wait = p.get("wait", "F")        # "F": yield False, "S": yield Sleep()
   T = {}
   steps = []                       # seq at the start of each step of T
+  resumes = [0]                    # steps that started out of an indefinite wait (or the start)
   wakes = []                       # seq at the start of each schedule(T) call
   flag = [False]
   wdone = [inthread == 0]
+  ms = ["new"]                     # model state of T
+
+  def wake_effect():
+    if ms[0] == "waiting":
+      ms[0] = "queued"
+
+  def step_begin(after_wait):
+    if flag[0]:
+      obs.fail("step-overlap", "scenario b: a step of T started while another step of T was running", scn="b")
+    flag[0] = True
+    if _rt.current_thread() is not obs.s._thread:
+      obs.fail("step-wrong-thread", "scenario b: T ran on a thread other than the scheduler's", scn="b")
+    if ms[0] != "queued":
+      obs.fail("resumed-without-wake", "scenario b: a step of T started although T was %s (%s) and no wake-up had taken effect since"
+               % (ms[0], "indefinite wait" if after_wait else "it had already used its slot after `yield 0`"), scn="b")
+    ms[0] = "running"
+    steps.append(obs.tick())
+    if after_wait:
+      resumes[0] += 1
+    ds.switch_point("T.step", True)
+    flag[0] = False
 
   def tgen(task):
     while True:
-      if flag[0]:
-        obs.fail("step-overlap", "scenario b: a step of T started while another step of T was running", scn="b")
-      flag[0] = True
-      if _rt.current_thread() is not obs.s._thread:
-        obs.fail("step-wrong-thread", "scenario b: T ran on a thread other than the scheduler's", scn="b")
-      steps.append(obs.tick())
-      ds.switch_point("T.step", True)
-      flag[0] = False
-      yield False
+      step_begin(True)
+      for _ in range(z):
+        ms[0] = "queued"
+        yield 0
+        step_begin(False)
+      ms[0] = "waiting"
+      if wait == "S":
+        yield R.Sleep()
+      else:
+        yield False
 
   def wgen(task):
     for _ in range(inthread):
       wakes.append(obs.tick())
+      wake_effect()
       obs.s.schedule(T["t"])
       yield 0
     wdone[0] = True
@@ -384,12 +448,23 @@ def _scn_b(p, ds, obs, m):
       if c > 1:
         obs.fail("queued-twice", "scenario b: T occurs %d times in the ready queue (seen by %s at %s)" % (c, name, site), scn="b")
 
+  orig_run = R.ScheduleTask.run
+
+  def st_run(self):
+    if "t" in T and self._task is T["t"]:
+      if _rt.current_thread() is obs.s._thread:
+        wake_effect()
+    return (yield from orig_run(self))
+  obs.patches.append(ds.patched(R.ScheduleTask, run=st_run))
+
   def before(s):
     T["t"] = m.HTask(1, tgen)
+    ms[0] = "queued"
     T["t"].start(s)
     ds.wait_quiescent("b: wait for T to block")
-    if len(steps) != 1:
-      obs.fail("start-lost", "scenario b: T was started from a foreign thread but had run %d steps at quiescence" % len(steps), scn="b")
+    if resumes[0] != 1 or ms[0] != "waiting":
+      obs.fail("start-lost", "scenario b: T was started from a foreign thread but at quiescence it had started %d times and was %s"
+               % (resumes[0], ms[0]), scn="b")
     if inthread:
       m.HTask(2, wgen).start(s)
 
@@ -403,7 +478,7 @@ def _scn_b(p, ds, obs, m):
   def snap():
     s = obs.s
     return {"steps": list(steps), "wakes": list(wakes), "inready": list(s._ready).count(T["t"]) if "t" in T else 0,
-            "wdone": wdone[0]}
+            "wdone": wdone[0], "resumes": resumes[0], "ms": ms[0]}
 
   def judge(out, final):
     q = obs.q
@@ -415,13 +490,13 @@ def _scn_b(p, ds, obs, m):
                  "scenario b: %d schedule(T) calls were made, the last one started at event %d, but at quiescence T's last step had "
                  "started at event %r (%s)" % (nw, max(q["wakes"]), q["steps"][-1:] or None,
                                                "T ran only after virtual time advanced" if late else "T never ran again"), scn="b")
-      if q["inready"] and q["steps"] and q["steps"][-1] > max(q["wakes"] or [0]):
-        pass
+      elif q["ms"] == "queued":
+        out.fail("wake-lost", "scenario b: a wake-up took effect while T was waiting but T had not run at quiescence", scn="b")
       if not q["wdone"]:
         out.fail("wake-lost", "scenario b: the in-thread waker task had not finished at quiescence", scn="b", who="waker")
-    if len(final["steps"]) > 1 + len(final["wakes"]):
-      out.fail("queued-twice", "scenario b: T ran %d steps for 1 start + %d wakes" % (len(final["steps"]), len(final["wakes"])),
-               scn="b")
+    if final["resumes"] > 1 + len(final["wakes"]):
+      out.fail("queued-twice", "scenario b: T was resumed %d times out of a wait for 1 start + %d wakes"
+               % (final["resumes"], len(final["wakes"])), scn="b")
     if final["inready"] > 1:
       out.fail("queued-twice", "scenario b: T occurs %d times in the ready queue at the end" % final["inready"], scn="b")
   return before, [body(i) for i in range(len(wakers))], snap, judge, observe
@@ -500,24 +575,42 @@ def _scn_c(p, ds, obs, m):
 
 
 def _scn_d(p, ds, obs, m):
+  """Lock programs.  ops: ["a",l] blocking acquire, ["t",l] non-blocking acquire, ["r",l] release (own lock),
+  ["A",l] / ["R",l] the same acquire / release done inside a @task_function helper (a sub-task) on behalf of the task,
+  ["x",l] release a lock that somebody else holds (recoco's Lock has "similar semantics to the Python Lock", which any
+  thread may release), ["y"] yield 0, ["s",k] sleep k/8 s.  p["init"][l] true: the lock is created with Lock(locked=True)
+  (held by nobody in particular; task 0 releases it at its end unless an "x" did before).
+  The model's holder is the *logical* task, also when a helper sub-task made the call."""
   R = m.R
   nlocks = p["locks"]
   progs = p["tasks"]
-  locks = [R.Lock() for _ in range(nlocks)]
-  holder = [None] * nlocks
+  init = list(p.get("init") or []) + [False] * nlocks
+  locks = [R.Lock(locked=True) if init[l] else R.Lock() for l in range(nlocks)]
+  holder = [(-1 if init[l] else None) for l in range(nlocks)]     # task index, -1 (initially locked), None (free)
   handoff = [False] * nlocks
   waiters = [set() for _ in range(nlocks)]
   done = [False] * len(progs)
-  stats = {"handover": 0, "try_true": 0, "try_false": 0, "waited": 0, "skipped": 0}
+  stats = {"handover": 0, "try_true": 0, "try_false": 0, "waited": 0, "skipped": 0, "helper": 0, "foreign_release": 0,
+           "init_locked": int(any(init[:nlocks]))}
   total_sleep = [0.0]
   for pr in progs:
     for op in pr:
       if op[0] == "s":
         total_sleep[0] += op[1] / 8.0
 
+  def who(h):
+    return "nobody (created locked)" if h == -1 else "task %r" % (h,)
+
+  def request(i, l):
+    free = holder[l] is None and not handoff[l]
+    if not free:
+      waiters[l].add(i)
+      stats["waited"] += 1
+    return free
+
   def got(i, l, how):
     if holder[l] is not None:
-      obs.fail("two-holders", "scenario d: task %d acquired lock %d (%s) while task %d holds it" % (i, l, how, holder[l]), scn="d")
+      obs.fail("two-holders", "scenario d: task %d acquired lock %d (%s) while %s holds it" % (i, l, how, who(holder[l])), scn="d")
     if handoff[l]:
       if i in waiters[l]:
         waiters[l].discard(i)
@@ -536,55 +629,90 @@ def _scn_d(p, ds, obs, m):
       handoff[l] = True
       stats["handover"] += 1
 
+  @R.task_function
+  def h_acquire(i, l):
+    free = request(i, l)
+    rv = yield locks[l].acquire()
+    if rv is not True:
+      obs.fail("acquire-result", "scenario d: blocking acquire (in a sub-task) returned %r" % (rv,), scn="d")
+    got(i, l, "blocking, inside a task_function helper, lock was %s at the request" % ("free" if free else "taken"))
+    yield True
+
+  @R.task_function
+  def h_release(i, l):
+    release(i, l)
+    yield locks[l].release()
+    yield True
+
   def tgen(task):
     i = task._h - 1
-    mine = []
+
+    def mine():
+      return [l for l in range(nlocks) if holder[l] == i]
     for op in progs[i]:
       k = op[0]
       if k == "y":
         yield 0
       elif k == "s":
         yield op[1] / 8.0
-      elif k in ("a", "t"):
+      elif k in ("a", "A", "t"):
         l = op[1] % nlocks
-        if l in mine:
+        if holder[l] == i:
           stats["skipped"] += 1
           continue
-        blocking = (k == "a") and not any(h >= l for h in mine)
-        if blocking:
-          free = holder[l] is None and not handoff[l]
-          if not free:
-            waiters[l].add(i)
-            stats["waited"] += 1
+        blocking = k in ("a", "A") and not any(h >= l for h in mine())
+        if blocking and holder[l] == -1 and (i == 0 or mine()):
+          blocking = False     # nobody who is waited for may wait for the initially locked lock
+        if blocking and k == "A":
+          stats["helper"] += 1
+          yield h_acquire(i, l)
+        elif blocking:
+          free = request(i, l)
           rv = yield locks[l].acquire()
           if rv is not True:
             obs.fail("acquire-result", "scenario d: blocking acquire returned %r" % (rv,), scn="d")
           got(i, l, "blocking, lock was %s at the request" % ("free" if free else "taken"))
-          mine.append(l)
         else:
           free = holder[l] is None and not handoff[l]
           rv = yield locks[l].acquire(False)
           if bool(rv) != free or not isinstance(rv, bool):
             obs.fail("try-acquire-result", "scenario d: non-blocking acquire of lock %d by task %d returned %r while the lock was %s"
-                     % (l, i, rv, "free" if free else ("held by %r" % (holder[l],) if holder[l] is not None else "handed to a waiter")),
+                     % (l, i, rv, "free" if free else ("held by %s" % who(holder[l]) if holder[l] is not None else "handed to a waiter")),
                      scn="d")
           if rv:
             stats["try_true"] += 1
             got(i, l, "non-blocking")
-            mine.append(l)
           else:
             stats["try_false"] += 1
-      elif k == "r":
+      elif k in ("r", "R"):
         l = op[1] % nlocks
-        if l not in mine:
+        if holder[l] != i:
           stats["skipped"] += 1
           continue
-        mine.remove(l)
+        if k == "R":
+          stats["helper"] += 1
+          yield h_release(i, l)
+        else:
+          release(i, l)
+          yield locks[l].release()
+      elif k == "x":
+        l = op[1] % nlocks
+        if holder[l] is None or holder[l] == i:
+          stats["skipped"] += 1
+          continue
+        stats["foreign_release"] += 1
         release(i, l)
-        rv = yield locks[l].release()
-    for l in sorted(mine, reverse=True):
+        yield locks[l].release()
+      else:
+        raise HarnessError("bad lock op %r" % (op,))
+    for l in sorted(mine(), reverse=True):
       release(i, l)
       yield locks[l].release()
+    if i == 0:
+      for l in range(nlocks):
+        if holder[l] == -1:
+          release(i, l)
+          yield locks[l].release()
     done[i] = True
 
   def before(s):
@@ -665,6 +793,7 @@ def _execute(case):
 
   def main():
     R.defaultScheduler = None
+    R.nextTaskID = 0          # task ids (and the hashes derived from them) are the same in every run of a case
     if nondefault:
       # another running scheduler is the process default; the one under test is not
       others.append(R.Scheduler(isDefaultScheduler=True, startInThread=True, threaded_selecthub=hub))
@@ -676,6 +805,8 @@ def _execute(case):
       t.start()
     for t in ths:
       t.join()
+    if obs.tail is not None:
+      obs.tail(s)
     if pre_sleep:
       ds.time.sleep(pre_sleep + 0.125)
     else:
@@ -703,10 +834,15 @@ def _execute(case):
     upatch = ds.patched(U, os=ds.os, makePinger=m.real_make_pinger, make_pinger=m.real_make_pinger)
   else:
     upatch = ds.patched(U, makePinger=ds.make_pinger, make_pinger=ds.make_pinger)
-  with ds.patched(R, threading=ds.threading, Thread=ds.Thread, time=ds.time, select=ds.select,
-                  traceback=_TracebackShim(obs)), \
-       upatch, \
-       contextlib.redirect_stdout(buf):
+  with contextlib.ExitStack() as stack:
+    stack.enter_context(ds.patched(R, threading=ds.threading, Thread=ds.Thread, time=ds.time, select=ds.select,
+                                   traceback=_TracebackShim(obs)))
+    stack.enter_context(upatch)
+    # Lock._waiting is a set: give sub-tasks an address-independent hash so that pop() order is reproducible
+    stack.enter_context(ds.patched(R.AgainTask, __hash__=lambda self: 1000 + self.id))
+    for cm in obs.patches:
+      stack.enter_context(cm)
+    stack.enter_context(contextlib.redirect_stdout(buf))
     try:
       res = ds.run(main)
     finally:
@@ -761,7 +897,7 @@ def _execute(case):
   if scn == "d":
     stt = fin["stats"] if isinstance(fin, dict) else {}
     out.nontrivial = stt.get("handover", 0) > 0
-    for k in ("handover", "try_true", "try_false", "waited"):
+    for k in ("handover", "try_true", "try_false", "waited", "helper", "foreign_release", "init_locked"):
       if stt.get(k):
         out.label("d:" + k)
   else:
@@ -785,6 +921,8 @@ def _small_instances():
     ("a", {"threads": [["cl", "cl"], ["cl", "cl"]]}),
     ("a", {"threads": [["co"], ["rl"]]}),
     ("b", {"wakers": [1, 1], "inthread": 1}),
+    ("b", {"wakers": [1, 1], "inthread": 0, "z": 1, "wait": "S"}),
+    ("a", {"threads": [["cl"]], "tail": 2}),
     ("c", {"tasks": [3], "threads": [[1], [2]]}),
   ]
 
@@ -820,8 +958,41 @@ def _enum_sched(tier):
           for c in _dev_cases(scn, p, hub, base, bound):
             yield c
       # the same instance with pox.lib.util's real PipePinger over virtual pipes (threaded hub, base order 0)
-      for c in _dev_cases(scn, p, True, 0, 1 if tier == "quick" else 2, pinger="real"):
-        yield c
+      for base in ((0, 1) if p.get("tail") else (0,)):
+        for c in _dev_cases(scn, p, True, base, 1 if tier == "quick" else 2, pinger="real"):
+          yield c
+  return gen
+
+
+def _enum_pinger_windows(tier):
+  """Real PipePinger: every schedule made of at most one non-default successor choice at a forced switch (a thread blocks
+  or ends; thorough: any deviation) followed by one pre-emption between the statements of PipePinger.ping / pong /
+  pong_all, then follow-up hand-overs after quiescence."""
+  def gen():
+    insts = [("a", {"threads": [["cl"]], "tail": 2}), ("a", {"threads": [["cl"], ["cl"]], "tail": 1})]
+    for scn, p in insts:
+      for hub in (True, False):
+        for base in (0, 1):
+          def mk(devs):
+            return {"scn": scn, "hub": hub, "pinger": "real", "p": p,
+                    "sched": {"on": "win", "base": base, "devs": sorted([k, v] for k, v in devs.items())}}
+
+          def second(d):
+            return d["kind"] == "line" and not d.get("frozen") and "PipePinger" in d["site"]
+
+          def first(d):
+            return not d.get("frozen") and (tier == "thorough" or d["kind"] != "line")
+          base_decs = _execute(mk({}))[1].decisions
+          firsts = [{}] + [{d["k"]: v} for d in base_decs if first(d) for v in range(1, d["n"])]
+          for devs1 in firsts:
+            decs = _execute(mk(devs1))[1].decisions if devs1 else base_decs
+            last = max(devs1) if devs1 else -1
+            for d in decs:
+              if d["k"] > last and second(d):
+                for v in range(1, d["n"]):
+                  nd = dict(devs1)
+                  nd[d["k"]] = v
+                  yield mk(nd)
   return gen
 
 
@@ -854,6 +1025,8 @@ def _enum_bursts(tier):
 
 _D_OPS1 = [["a", 0], ["t", 0], ["r", 0], ["y"]]
 _D_OPS2 = [["a", 0], ["a", 1], ["t", 0], ["t", 1], ["r", 0], ["r", 1], ["y"]]
+_D_OPS3 = [["A", 0], ["R", 0], ["x", 0], ["a", 0], ["y"]]      # helper sub-task acquire / release, release by another task
+_D_OPS4 = [["a", 0], ["A", 0], ["t", 0], ["x", 0], ["y"]]      # with Lock(locked=True)
 
 
 def _enum_locks(tier):
@@ -863,6 +1036,16 @@ def _enum_locks(tier):
       for a in progs:
         for b in progs:
           yield {"scn": "d", "hub": hub, "p": {"locks": 1, "tasks": [a, b]}, "sched": {"on": "win", "base": 0, "devs": []}}
+    progs3 = [list(x) for x in itertools.product(_D_OPS3, repeat=3)]
+    for a in progs3:
+      for b in progs3:
+        yield {"scn": "d", "hub": False, "p": {"locks": 1, "tasks": [a, b]}, "sched": {"on": "win", "base": 0, "devs": []}}
+    progs4 = [list(x) for x in itertools.product(_D_OPS4, repeat=2)]
+    for a in progs4:
+      for b in progs4:
+        for c in progs4[::3]:
+          yield {"scn": "d", "hub": False, "p": {"locks": 1, "init": [True], "tasks": [a, b, c]},
+                 "sched": {"on": "win", "base": 0, "devs": []}}
     progs2t = [list(x) for x in itertools.product(_D_OPS1, repeat=2)]
     for a in progs2t:
       for b in progs2t:
@@ -895,13 +1078,15 @@ def _strategy(tier):
 
   def s():
     op = st.sampled_from(["cl", "cl", "co", "rl"])
-    pa = st.fixed_dictionaries({"threads": st.lists(st.lists(op, min_size=1, max_size=3), min_size=1, max_size=3)})
-    pb = st.fixed_dictionaries({"wakers": st.lists(st.integers(1, 3), min_size=1, max_size=3), "inthread": st.integers(0, 2)})
+    pa = st.fixed_dictionaries({"threads": st.lists(st.lists(op, min_size=1, max_size=3), min_size=1, max_size=3),
+                                "tail": st.sampled_from([0, 0, 1, 2])})
+    pb = st.fixed_dictionaries({"wakers": st.lists(st.integers(1, 3), min_size=1, max_size=3), "inthread": st.integers(0, 2),
+                                "z": st.sampled_from([0, 1, 1, 2]), "wait": st.sampled_from(["F", "S"])})
     pc = st.fixed_dictionaries({"tasks": st.lists(st.integers(1, 5), min_size=1, max_size=3),
                                 "threads": st.lists(st.lists(st.integers(1, 3), min_size=1, max_size=2), min_size=1, max_size=3)})
-    dop = st.one_of(st.tuples(st.sampled_from(["a", "a", "t", "r", "r"]), st.integers(0, 1)).map(list),
+    dop = st.one_of(st.tuples(st.sampled_from(["a", "a", "t", "r", "r", "A", "R", "x"]), st.integers(0, 1)).map(list),
                     st.just(["y"]), st.tuples(st.just("s"), st.integers(1, 4)).map(list))
-    pd = st.fixed_dictionaries({"locks": st.integers(1, 2),
+    pd = st.fixed_dictionaries({"locks": st.integers(1, 2), "init": st.lists(st.sampled_from([False, False, True]), min_size=2, max_size=2),
                                 "tasks": st.lists(st.lists(dop, min_size=1, max_size=8 if big else 6), min_size=2, max_size=4)})
 
     def case(scn, p, maxgap, op=False, pinger=None):
@@ -909,7 +1094,7 @@ def _strategy(tier):
                                     "pinger": pinger if pinger is not None else st.sampled_from(["fake", "real"])})
     bop = st.one_of(op, op, st.tuples(st.just("b"), st.sampled_from(BURSTS + [3, 511, 1024])).map(list))
     pburst = st.fixed_dictionaries({"threads": st.lists(st.lists(bop, min_size=1, max_size=2), min_size=1, max_size=2),
-                                    "hold": st.booleans(), "warm": st.booleans()})
+                                    "hold": st.booleans(), "warm": st.booleans(), "tail": st.sampled_from([0, 1, 2])})
     return st.one_of(case("a", pa, 60), case("a", pa, 25), case("b", pb, 50), case("b", pb, 20), case("c", pc, 50),
                      case("c", pc, 20), case("d", pd, 40), case("a", pa, 150, True), case("b", pb, 120, True),
                      case("a", pburst, 4000, False, st.just("real")))
@@ -935,4 +1120,5 @@ def plan(tier):
           Enum("lock-programs", _enum_locks(tier), shards=16),
           Enum("nondefault-scheduler", _enum_nondefault(tier), shards=8),
           Enum("calllater-bursts", _enum_bursts(tier), shards=16),
+          Enum("pinger-windows", _enum_pinger_windows(tier), shards=16),
           Hyp("random-schedules", _strategy(tier), examples=n, shards=16)]
